@@ -173,7 +173,7 @@ PROPS = {
         "gen": ["EffectOrder", "LockTable"],
     },
     "C12": {
-        "level_text": "Lean 4 theorems over an executable model of the patch engine (byte-level parser, hunk application, file system with directories, undo list and revert): exactness on success for every workspace state and operation list (result = in-order fold of the operation semantics; changed files = sorted, de-duplicated named files), parser totality and path confinement, hunk locality; all-or-nothing on failure via the undo invariant (theorem `atomic`, see evidence for whether it is included in this build). Tied to the code by differential correspondence: the same (workspace, patch document) pairs run through rip-workspace in a scratch directory and through the compiled model, full tree (files, bytes, directories), result and error class compared; plus implementation oracles for all-or-nothing and changed-files.",
+        "level_text": "Lean 4 theorems over an executable model of the patch engine (byte-level parser, hunk application, file system with directories, undo list and revert): exactness on success for every workspace state and operation list (result = in-order fold of the operation semantics; changed files = sorted, de-duplicated named files), parser totality and path confinement, hunk locality; text updates keep the line-ending style and the trailing newline (re-reading the written text gives the result lines and the original's trailing flag; CRLF occurs in the output iff it did in the original; untouched uniformly terminated text is reproduced byte for byte — the one boundary, a bare CR at the very end of a text, is stated and witnessed); all-or-nothing on failure via the undo invariant (theorem `atomic`, see evidence for whether it is included in this build). Tied to the code by differential correspondence: the same (workspace, patch document) pairs run through rip-workspace in a scratch directory and through the compiled model, full tree (files, bytes, directories), result and error class compared; plus implementation oracles for all-or-nothing, changed-files, in-order hunk application, and line-ending style / trailing newline of updated LF and CRLF files.",
         "level_note": "Lean kernel; model hand-written, validated by the correspondence check; std::fs semantics (exists/read/write/create_dir_all/remove_file/rename on files vs directories, trailing-slash spellings) are modelled, not verified; symlinks, I/O errors during rollback and concurrent external writers are outside the model.",
         "technique": "Lean 4 proof (refinement to in-order fold; undo-list invariant) + differential correspondence check",
         "design_ref": "§5 C12",
@@ -329,4 +329,6 @@ HOOK_COMMITS = [
     "008b156",  # run-time context compile entry point
     "dd2e088",  # run-linked append helpers
     "9adb383",  # crash points of the append path
+    "17947a0",  # read-path markers for the compile input
+    "ce397b2",  # yield point before a reader rewrites the continuity sidecar
 ]
